@@ -127,6 +127,10 @@ func (m *UpstreamClusterController) syncUpstreamCluster(obj interface{}) (syncqu
 		// bootstrap
 		clusterInfo, err = clusters.CreateClusterInfo(cluster, GatewayHealthCheck, m.rateLimiter, m.clientSets)
 		defer func() {
+			if clusterInfo == nil {
+				// CreateClusterInfo failed: nothing was created or registered
+				return
+			}
 			if err != nil {
 				clusterInfo.Stop()
 				m.DeleteForServerNames(clusterName)
